@@ -450,6 +450,17 @@ def soup_text(rng, kind, base_docs):
             else:
                 t = t[:pos] + rng.choice(HAZARD + FRAGS) + t[pos + 1:]
         return t
+    if kind == "longtok":
+        t = rng.choice(base_docs)
+        multi = ["\u00e9", "\u4e2d", "\U0001F600", "\u00fc"]
+        n = rng.randint(20, 90)
+        body = "".join(rng.choice(multi) if rng.random() < 0.4 else rng.choice("abcxyz _-") for _ in range(n))
+        tok = rng.choice(['"' + body + '"', "id_" + "".join(c for c in body if c.isascii() and c.isalnum()) * 2,
+                          "@" + "A" * n, "9" * n, '"' + "x" * rng.randint(35, 45) + rng.choice(multi) * 3 + '"',
+                          "/* " + body + " */", "// " + body + "\n"])
+        cuts = [i for i in range(len(t) + 1) if i == 0 or i == len(t) or not (t[i - 1].isalnum() and t[i].isalnum())]
+        c = rng.choice(cuts)
+        return t[:c] + " " + tok + " " + t[c:]
     if kind == "nest":
         d = rng.choice([1, 5, 17, 40, 64])
         shape = rng.choice(["list", "map", "array", "mixed"])
@@ -474,7 +485,7 @@ def soup_text(rng, kind, base_docs):
 
 def soup_scenarios(rng, n, base_docs):
     out = []
-    kinds = ["char"] * 4 + ["token"] * 4 + ["mutate"] * 8 + ["nest"] + ["big"]
+    kinds = ["char"] * 4 + ["token"] * 4 + ["mutate"] * 8 + ["longtok"] * 6 + ["nest"] + ["big"]
     for k in range(n):
         nfiles = rng.choice([1, 1, 1, 2, 3, 6])
         ops = [{"op": "new", "i": 1}]
@@ -611,11 +622,15 @@ def query_ops(fid, text, toks, what=("walk", "filter", "find", "lookup", "walker
 
 
 def symbol_scenario(s, src, what, layout="default", rng=None):
+    import docgen as D
     ops = [{"op": "new", "i": 1}]
     texts = {}
     for f in s["files"]:
-        pieces = R.default_layout(f["toks"]) if layout == "default" else R.random_layout(f["toks"], rng)
-        texts[f["id"]] = R.text_of(pieces)
+        if layout == "default":
+            texts[f["id"]] = R.text_of(R.default_layout(f["toks"]))
+        else:
+            # line breaks, comments and multi-byte white space between ANY two tokens (also inside dotted names)
+            texts[f["id"]] = D.text_of(D.layout(f["toks"], rng, mode="mixed", unicode_ws=True))
         ops.append({"op": "add", "i": 1, "id": f["id"], "text": texts[f["id"]]})
     ops.append({"op": "validate", "i": 1})
     for f in s["files"]:
